@@ -2,6 +2,8 @@ package pathdbsim
 
 import (
 	"fmt"
+	"os"
+	"runtime"
 	"sort"
 	"testing"
 	"time"
@@ -27,6 +29,7 @@ func (p *Plan) needsSched() bool {
 // actors under the gate scheduler, the model judging every observation.
 func runPlan(t *testing.T, pl any) *simcore.Result {
 	p := pl.(*Plan)
+	t0 := time.Now()
 	prologue()
 	res := simcore.NewResult()
 	var (
@@ -47,6 +50,17 @@ func runPlan(t *testing.T, pl any) *simcore.Result {
 		if useSched {
 			sched = simsched.New(p.Tape, simsched.ModePoll)
 			sched.MaxSteps = 60000
+			if os.Getenv("PDB_DUMP") != "" {
+				n := 0
+				sched.OnStep = func() error {
+					n++
+					if n == 20 {
+						buf := make([]byte, 1<<20)
+						fmt.Printf("DUMP\n%s\n", buf[:runtime.Stack(buf, true)])
+					}
+					return nil
+				}
+			}
 		}
 		for pi := range p.Phases {
 			ph := &p.Phases[pi]
@@ -166,6 +180,13 @@ func runPlan(t *testing.T, pl any) *simcore.Result {
 		choices = sched.Choices()
 	}
 	res.NonTrivial = res.Probes["flatten"]+res.Probes["commit"] > 0 && (sched == nil || choices >= 2)
+	if os.Getenv("PDB_TIMING") != "" {
+		steps := 0
+		if sched != nil {
+			steps = sched.Steps()
+		}
+		fmt.Printf("TIMING wall=%v steps=%d choices=%d states=%d kvreads=%d viol=%v known=%v\n", time.Since(t0), steps, choices, len(rn.m.order), rn.w.kv.Reads.Load(), rn.viol != nil, res.Known)
+	}
 	return res
 }
 
